@@ -24,11 +24,21 @@ def cycle_blocks(B, bb):
 CRATE = None   # set by run(): the crate whose closures / helpers are looked up
 
 
+def _callable_path(o):
+    """path of the closure literal or of the local function item that an operand denotes"""
+    if o.kind == "aggregate" and o.rv.get("closure"):
+        return o.rv["closure"]
+    if o.kind == "const" and (o.const.get("inst_path") or o.const.get("fn_path")):
+        return o.const.get("inst_path") or o.const.get("fn_path")
+    return None
+
+
 def closure_only_resets(B, operand):
     """The closure literal passed as operand does nothing but store constants into atomic flags (helpers it calls inlined)."""
     for o in M.trace(B, operand, ()):
-        if o.kind == "aggregate" and o.rv.get("closure") and CRATE is not None:
-            CB = I.inlined_body(CRATE, o.rv["closure"])
+        target = _callable_path(o)
+        if target and CRATE is not None:
+            CB = I.inlined_body(CRATE, target)
             if CB is None:
                 return False, "closure body not available"
             n_store = 0
@@ -108,13 +118,7 @@ def run(ck, F):
     ck.count("bodies scanned", sum(1 for _ in scans.bodies(F.lib)))
     n_ok = 0
     for (fn, site, what, n) in hits:
-        B = M.Body(F.lib.body(fn))
-        bb = [b for b, t in B.calls() if (t.get("cs") or t.get("sp")) == site]
-        ok, why = (False, "site not found")
-        for b in bb:
-            ok, why = order_insensitive_loop(B, b)
-            if ok:
-                break
+        ok, why = iteration_verdict(F, fn, site)
         if ok:
             n_ok += 1
             ck.ok("R1", f"{what}#{n}", site, f"hash iteration accepted: {why}", fn=fn)
@@ -247,8 +251,11 @@ def _reads_after(B, head, inside, reach, loaders, g):
 
 def _closure_stores_false(B, operand):
     for o in M.trace(B, operand, ()):
-        if o.kind == "aggregate" and o.rv.get("closure"):
-            CB = I.inlined_body(CRATE, o.rv["closure"])
+        target = _callable_path(o)
+        if target:
+            CB = I.inlined_body(CRATE, target)
+            if CB is None:
+                continue
             for bb, t in CB.calls_to(ATOMIC_STORE):
                 tgt = M.trace(CB, t["args"][0])
                 vals = M.trace(CB, t["args"][1], M.IDENTITY_CALLS)
@@ -256,3 +263,58 @@ def _closure_stores_false(B, operand):
                         v.kind == "const" and str(v.const.get("text")).strip() in ("false", "const false") for v in vals):
                     return True
     return False
+
+
+def _iterator_returned(B, bb):
+    """the value produced by the call in block bb reaches the function's return place (through identity steps)"""
+    t = B.term(bb)
+    if t.get("dest", {}).get("proj"):
+        return False
+    seen, work = set(), [t["dest"]["l"]]
+    while work:
+        l = work.pop()
+        if l == 0:
+            return True
+        if l in seen:
+            continue
+        seen.add(l)
+        for (ubb, where, j, x) in M.uses_of_local(B, l):
+            if where == "stmt" and x["rv"]["k"] in ("use", "ref", "cast") and not x["p"].get("proj"):
+                work.append(x["p"]["l"])
+            if where == "term" and x.get("k") == "call" and any((M.Body.callee_decl(x) or "").endswith(i_) for i_ in ITER_IDENT) and not x["dest"].get("proj"):
+                work.append(x["dest"]["l"])
+    return False
+
+
+_GRAPH = {}
+
+
+def iteration_verdict(F, fn, site):
+    """(ok, why) for the hash-container iteration created at `site` in function `fn`: accepted when its only consumer is a loop
+    that stores constants into atomic flags, in `fn` itself or - when `fn` hands the iterator out - in every caller."""
+    B = M.Body(F.lib.body(fn))
+    bb = [b for b, t in B.calls() if (t.get("cs") or t.get("sp")) == site]
+    ok, why = (False, "site not found")
+    for b in bb:
+        ok, why = order_insensitive_loop(B, b)
+        if ok:
+            return ok, why
+    if bb and _iterator_returned(B, bb[0]):
+        # an accessor that hands the iterator out (`fn contents(&self) -> impl Iterator { self.map.values() }`): what matters
+        # is what every caller does with it; looked at with the accessor inlined into the caller
+        if id(F) not in _GRAPH:
+            _GRAPH.clear()
+            _GRAPH[id(F)] = scans.call_graph(F.lib)
+        g = _GRAPH[id(F)]
+        callers = [c for c, cs in g.items() if fn in cs and c != fn and F.lib.body(c) is not None and not F.lib.body(c).get("closure")
+                   and in_scope(c)]
+        verdicts = []
+        for c in callers:
+            IB = I.inlined_body(F.lib, c)
+            sites = [b2 for b2, t2 in IB.calls() if (t2.get("cs") or t2.get("sp")) == site]
+            verdicts += [order_insensitive_loop(IB, b2) for b2 in sites] or [(False, f"{c}: call not found after inlining")]
+        if callers and all(v[0] for v in verdicts):
+            return True, f"iterator handed to {len(callers)} caller(s); each only resets flags with it"
+        if callers:
+            why = "; ".join(v[1] for v in verdicts if not v[0])[:200]
+    return ok, why
